@@ -158,14 +158,16 @@ CHECKS = {
             "EBU STL encoder for display standards 0/1/2, a teletext-in-TS encoder through the astits muxer) from ground-truth cue lists, "
             "0..4 operations with random parameters through the library and one through the built CLI binary, the destination re-read and "
             "compared (count, order, times truncated to the destination unit, text without white space) with the composed reference "
-            "semantics of the operations; extension dispatch compared with the extracted model.",
+            "semantics of the operations; the CLI additionally on unordered/overlapping lists with operation parameters spanning the whole "
+            "time range; styled and metadata-bearing sources (documents of the C01/C02/C04 generators, TTML with regions and styles carrying "
+            "random attribute subsets) to every destination with and without Optimize; extension dispatch compared with the extracted model.",
             "Rocq proof of the dispatch model and of the SubRip/WebVTT conversions (partial) + conversion matrix through file API and CLI on the implementation",
             "partial: the pairwise theorems exist for the SubRip/WebVTT pairs only (the other codec models are being built); the "
             "operation-sequence theorems go through Kit/Float64.v (linear correction), hence the standard-library Reals axioms that Flocq "
             "brings in (listed in the evidence); the content tag of Model/ConvOps.v (source index carried in the style-pointer field, which "
             "the SubRip/WebVTT readers never set) is a modelling device checked by the byte comparison; coloured "
-            "runs are outside the WebVTT representability predicate; in the matrix texts are plain Latin words (styled SubRip/WebVTT sources "
-            "in the model comparison); metadata-bearing sources are exercised by C08/C19 for panics and determinism only."),
+            "runs are outside the WebVTT representability predicate; in the matrix and in the styled-source suite texts are plain Latin words (arbitrary "
+            "Unicode text only in the SubRip/WebVTT model comparison)."),
     "C20": (True,
             "Theorems: (i) frame property - in an interleaving semantics where steps only read the shared store, every thread ends, under "
             "ANY schedule, in the state it reaches alone; (ii) instance - the write-effect summary regenerated on every run from the go/ssa "
